@@ -492,9 +492,12 @@ def _gen_c07(rng, max_stages):
                 return S.SD("import", ["s", name("fn")], form="tag")
             if r < 0.72:
                 return S.SD("xref", None, ref=[S.skey(rng.choice(["f", "d", "e"]))], form="tag")
-            if r < 0.75:
+            if r < 0.74:
                 k = rng.choice(["f", "d", "e"])
                 return unsafe(S.SD("eval", ["s", k], ref=[S.skey(k)], form="tag"))
+            if r < 0.75:
+                k = rng.choice(["f", "d", "e"])
+                return S.SD("fstr", ["s", "f'{" + k + "}'"], ref=[S.skey(k)], form="tag")
             if r < 0.78 and depth > 0 and not recs[0]:
                 # files read at evaluation time (one !rec node per history: provenance of what the files hold must be decidable)
                 recs[0] = True
@@ -541,8 +544,8 @@ EVAL = {
     },
     "C10": {
         "invariants": ["Inv_C10", "StepBound"],
-        "exh": {"quick": [("EU_C10_DocsS", 1, 1), ("EU_C10_DocsE", 1, 1), ("EU_C10_DocsN", 1, 1), ("EU_C10_Hist", 2, 2, "EU_C10_HistRange")],
-                "thorough": [("EU_C10_Docs", 1, 1), ("EU_C10_DocsE", 1, 1), ("EU_C10_DocsN", 1, 1), ("EU_C10_Hist", 2, 2, "EU_C10_HistRange")]},
+        "exh": {"quick": [("EU_C10_DocsS", 1, 1), ("EU_C10_DocsE", 1, 1), ("EU_C10_DocsN", 1, 1), ("EU_C10_DocsF", 1, 1), ("EU_C10_Hist", 2, 2, "EU_C10_HistRange")],
+                "thorough": [("EU_C10_Docs", 1, 1), ("EU_C10_DocsE", 1, 1), ("EU_C10_DocsN", 1, 1), ("EU_C10_DocsF", 1, 1), ("EU_C10_Hist", 2, 2, "EU_C10_HistRange")]},
         "mutations": [{"mutation": "NoIdCache", "docs": "EU_C10_DocsS", "stages": (1, 1), "expect": ["Inv_C10"]},
                       {"mutation": "EvalLeaksPlaceholder", "docs": "EU_C10_DocsE", "stages": (1, 1), "expect": ["Inv_C10"]}],
         "gen": _gen_eval, "random": {"quick": 1500, "thorough": 25000}, "max_stages": 2,
